@@ -140,6 +140,20 @@ static void op_frame(const V &a, V &r) {
     ha = tl(acc0);
     tLweMulByXaiMinusOne(acc, 77, acc0, tp); check(tl(acc0) == ha, hk, g0);
     tLweAddTo(acc, acc0, tp); check(tl(acc0) == ha, hk, g0);
+    // 14-17: operands whose polynomials are identically zero (noiseless trivial samples: the mask of a constant), and a bootstrapping
+    //        of a noiseless trivial LWE sample: the special values must leave the inputs alone like any other
+    { TLweSample *tz = new_TLweSample(tp), *tr = new_TLweSample(tp); TorusPolynomial *zp = new_TorusPolynomial(N);
+      for (int q = 0; q < k; q++) for (int j = 0; j < N; j++) tz->a[q].coefsT[j] = 0;
+      for (int j = 0; j < N; j++) { tz->a[k].coefsT[j] = (j == 0) ? (1 << 29) : 0; zp->coefsT[j] = 0; }
+      ha = tl(tz);
+      tGswTLweDecompH(dec, tz, gp); check(tl(tz) == ha, hk, g0);                                            // 14 tGswTLweDecompH (trivial sample)
+      uint64_t hz = fnv(zp->coefsT, 4 * N);
+      tGswTorus32PolynomialDecompH(dec, zp, gp); check(fnv(zp->coefsT, 4 * N) == hz, hk, g0);                // 15 tGswTorus32PolynomialDecompH (zero polynomial)
+      tGswExternProduct(tr, &bk->bk[0], tz, gp); uint64_t h1 = tl(tr); bool ok = tl(tz) == ha;
+      tGswExternProduct(tr, &bk->bk[0], tz, gp); check(ok && tl(tz) == ha && tl(tr) == h1, hk, g0);          // 16 tGswExternProduct (trivial operand, twice)
+      for (int i = 0; i < n; i++) x->a[i] = 0; x->b = 1 << 29; sx = snap(x, n);
+      tfhe_bootstrap_FFT(res, bf, 1 << 29, x); check(snap(x, n) == sx, hk, g0);                              // 17 tfhe_bootstrap_FFT (trivial input)
+      delete_TorusPolynomial(zp); delete_TLweSample(tr); delete_TLweSample(tz); }
     delete_IntPolynomial_array(gp->kpl, dec); delete_TorusPolynomial(tv); delete_TLweSample(acc0); delete_TLweSample(acc);
     delete_LweSample(u); delete_LweSample(res); delete_LweSample(x);
 }
